@@ -15,12 +15,15 @@ func init() {
 			ID: "C19", Title: "Malformed UPDATEs never install routes", Level: "other",
 			Technique:   "wire-value guard checks (R-TAINT) on the typed AST: dominating comparisons of the prefix length with the family maximum and of the length fields with the message length; sibling agreement of the attribute body decoders on reading the declared length; guard table of the mandatory-attribute test; exact-framing rule",
 			DesignRef:   "DESIGN.md §4 C19",
-			Decided:     "(1) every prefix built from a wire prefix length (deserializePrefix) is dominated by a comparison of that length with the address family's maximum (8 × address octets of the AFI table, unknown AFIs rejected); (2) the NLRI length, obtained by subtracting the withdrawn-routes and attribute lengths from the message length, is computed only after a dominating test that they fit; (3) every arm of the attribute-type switch either calls a body decoder that reads the attribute's declared length or tests that length itself — a decoder that never looks at the declared length cannot reject a mismatch and desynchronises the parse; (4) decodeUpdateMsg rejects reachable IPv4 NLRI unless ORIGIN, AS_PATH and NEXT_HOP are all present (8 valuations), and decodePathAttrs requires all three as soon as one is present (MP_REACH counting as next hop); (5) the framing hands the decoder exactly the received message (the slice of the receive buffer up to the header length), so lengths pointing past the end hit end-of-input instead of the buffer's padding.",
+			Decided:     "(1) every prefix built from a wire prefix length (deserializePrefix) is dominated by a comparison of that length with the address family's maximum (8 × address octets of the AFI table, unknown AFIs rejected); (2) the NLRI length, obtained by subtracting the withdrawn-routes and attribute lengths from the message length, is computed only after a dominating test that they fit; (3) every arm of the attribute-type switch either calls a body decoder that reads the attribute's declared length or tests that length itself — a decoder that never looks at the declared length cannot reject a mismatch and desynchronises the parse; (3b) the decoders of the fixed-size attributes (ORIGIN 1, NEXT_HOP 4, MED 4, LOCAL_PREF 4, AGGREGATOR 6|8, ORIGINATOR_ID 4, AS4_AGGREGATOR 8) reach a non-error return for exactly those declared lengths (tests on the declared length evaluated on candidate lengths, through delegation to helpers of the same receiver); (4) decodeUpdateMsg rejects reachable IPv4 NLRI unless ORIGIN, AS_PATH and NEXT_HOP are all present (8 valuations), and decodePathAttrs requires all three as soon as one is present (MP_REACH counting as next hop); (5) the framing hands the decoder exactly the received message (the slice of the receive buffer up to the header length), so lengths pointing past the end hit end-of-input instead of the buffer's padding.",
 			NotDecided:  "that nothing reaches the Adj-RIB-In after a decode error is C21/C23's control flow (the error branch returns before update()); malformations outside these five classes.",
 			TrustedBase: stdTrusted,
 		},
 		Run: runC19,
 		Controls: []Control{
+			{Name: "med-length-not-enforced", File: "protocols/bgp/packet/path_attributes.go", Old: "func (pa *PathAttribute) decodeMED(buf *bytes.Buffer) error {\n\tif pa.Length != 4 {\n\t\treturn fmt.Errorf(\"invalid attribute length %d, expected 4\", pa.Length)\n\t}\n\n\tmed := uint32(0)\n\terr := decode.DecodeUint32(buf, &med)\n\tif err != nil {\n\t\treturn err\n\t}\n\n\tpa.Value = med\n\treturn nil\n}", New: "func (pa *PathAttribute) decodeMED(buf *bytes.Buffer) error {\n\treturn pa.decodeUint32(buf, \"MED\")\n}", Expect: "fixed-size-attribute-length-enforced"},
+			{Name: "origin-surplus-octets-skipped", File: "protocols/bgp/packet/path_attributes.go", Old: "\tif pa.Length != 1 {\n\t\treturn fmt.Errorf(\"invalid attribute length %d, expected 1\", pa.Length)\n\t}\n", New: "", Expect: "fixed-size-attribute-length-enforced"},
+			{Name: "refactor-length-test-in-shared-helper", Silent: true, File: "protocols/bgp/packet/path_attributes.go", Old: "func (pa *PathAttribute) decodeOriginatorID(buf *bytes.Buffer) error {\n\tif pa.Length != 4 {\n\t\treturn fmt.Errorf(\"invalid attribute length %d, expected 4\", pa.Length)\n\t}\n\n\treturn pa.decodeUint32(buf, \"OriginatorID\")", New: "func (pa *PathAttribute) decodeOriginatorID(buf *bytes.Buffer) error {\n\tif pa.Length > 4 || pa.Length < 4 {\n\t\treturn fmt.Errorf(\"invalid attribute length\")\n\t}\n\n\treturn pa.decodeUint32(buf, \"OriginatorID\")"},
 			{Name: "refactor-prefix-length-check-in-int", Silent: true, File: "protocols/bgp/packet/helper.go", Old: "\tif !known || uint16(pfxLen) > 8*uint16(maxPfxLen) {", New: "\tif !known || int(pfxLen) > 8*int(maxPfxLen) {"},
 			{Name: "prefix-length-check-dropped", File: "protocols/bgp/packet/helper.go", Old: "\tif !known || uint16(pfxLen) > 8*uint16(maxPfxLen) {", New: "\tif !known || uint16(pfxLen) > 16*uint16(maxPfxLen) {", Expect: "prefix-length-bounded"},
 			{Name: "med-ignores-declared-length", File: "protocols/bgp/packet/path_attributes.go", Old: "func (pa *PathAttribute) decodeMED(buf *bytes.Buffer) error {\n\tif pa.Length != 4 {\n\t\treturn fmt.Errorf(\"invalid attribute length %d, expected 4\", pa.Length)\n\t}\n", New: "func (pa *PathAttribute) decodeMED(buf *bytes.Buffer) error {\n", Expect: "body-decoder-reads-length"},
@@ -33,6 +36,7 @@ func init() {
 
 func runC19(c *core.Ctx) {
 	p := c.P
+	fixedSizeAttributes(c)
 	const pkt = "protocols/bgp/packet"
 	// (1) prefix length ------------------------------------------------------------------------------
 	if f := c.MustFunc(pkt + ".deserializePrefix"); f != nil {
